@@ -479,6 +479,34 @@ theorem insertIdentical_refused (t : T) (g : List String) (gs : List (List Strin
     simp only [if_true]
     exact ⟨by rw [this.1], this.2⟩
 
+/-- `((a,b)S,(c,d)S,e);` — the witness of the open finding F79 -/
+def witnessF79 : T :=
+  .node ⟨"", []⟩ 0 [
+    (⟨1, NIL, NIL, [], 0⟩, .node ⟨"S", []⟩ 0 [(⟨1, NIL, NIL, [], 1⟩, T.leaf "a"), (⟨1, NIL, NIL, [], 2⟩, T.leaf "b")]),
+    (⟨1, NIL, NIL, [], 3⟩, .node ⟨"S", []⟩ 0 [(⟨1, NIL, NIL, [], 4⟩, T.leaf "c"), (⟨1, NIL, NIL, [], 5⟩, T.leaf "d")]),
+    (⟨1, NIL, NIL, [], 6⟩, T.leaf "e")]
+
+/-- F79 (open, class `InsertIdenticalDuplicateInnerLabels`), negative theorem on the witness: the tips are
+    pairwise different, the group `[a, n]` has exactly one existing member and the insertion itself goes
+    through (`groupsAcceptable`), yet the model — as the code, because of `NewNodeIndex` over ALL named
+    nodes — refuses and leaves the tree as it was -/
+theorem insertIdentical_duplicate_inner_labels_refused :
+    witnessF79.tipNames.Nodup ∧ dupInnerLabels witnessF79 = true ∧
+    groupsAcceptable witnessF79 [["a", "n"]] = true ∧
+    (insertIdentical true witnessF79 [["a", "n"]]).2 ≠ none ∧
+    (insertIdentical true witnessF79 [["a", "n"]]).1.tipNames = witnessF79.tipNames := by
+  decide +kernel
+
+/-- PARTIAL (F79): acceptable groups are accepted by the model only outside the excluded region —
+    when no two named nodes of the host (inner nodes included) share a label; there
+    `InsertIdenticalTips` is the insertion procedure itself -/
+theorem insertIdentical_accepts_partial (t : T) (groups : List (List String))
+    (hl : hasDup (t.nodeNames.filter (· != "")) = false) (ha : groupsAcceptable t groups = true) :
+    (insertIdentical true t groups).2 = none := by
+  unfold insertIdentical
+  simp only [hl, Bool.false_eq_true, if_false, if_true]
+  simpa [groupsAcceptable] using ha
+
 /-- the model's result meets the Spec used as oracle -/
 theorem insertOK_holds (t t' : T) (groups : List (List String))
     (h : insertIdentical true t groups = (t', none)) (hu : t.tipNames.Nodup)
